@@ -198,6 +198,18 @@ def check(rep, tier, seed):
         to = [rng.randrange(1, 2 * sz + 2) for sz in pop_sizes(sm)]
         vcf = render_vcf(cols, recs)
         cj.append((["create"] + cli_samples_arg(sm), vcf, to, len(recs)))
+    # projecting during creation with a target of another dimensionality (fewer or more entries than populations): an error
+    dj = []
+    for (a, v, to, _) in cj:
+        if len(to) >= 2:
+            dj.append((a + ["--project-shape", ",".join(map(str, to[:-1]))], v)); dj.append((a + ["-p", ",".join(str((m - 1) // 2) for m in to[:1])], v))
+        dj.append((a + ["--project-shape", ",".join(map(str, to + [1]))], v))
+    for job, (rc, so, se) in zip(dj, run_cli_many(dj)):
+        rep.count("create-project-wrong-dimensionality", " ".join(job[0]), True)
+        if rc == 0 or so != b"" or rc == 101:
+            rep.fail(kind="property-oracle", cls="project:create-wrong-dimensionality", case=" ".join(job[0]), argv=["sfs"] + job[0], stdin=job[1].decode(),
+                     observed={"rc": rc, "stdout": so.decode(errors="replace")[:200], "stderr": se.decode(errors="replace")[-200:]}, expected="an error, no output",
+                     detail="a projection target with another number of entries than there are populations must be rejected")
     created = run_cli_many([(a, v) for a, v, _, _ in cj])
     after = run_cli_many([(["view", "--project-shape", ",".join(map(str, to)), "--precision", "9"], c[1]) for (_, _, to, _), c in zip(cj, created)])
     during = run_cli_many([(a + ["--project-shape", ",".join(map(str, to)), "--precision", "9"], v) for a, v, to, _ in cj])
